@@ -529,6 +529,9 @@ func c10(c *ev.Ctx) {
 	nscripts := c.Pick(2000, 40000)
 	cmd := exec.Command("timeout", "-s", "KILL", "3000", "strace", "-f", "--seccomp-bpf", "-qq", "-s", "300", "-o", logf, "-e", "trace=%file,%network,%process,write,writev,pwrite64,pwritev,pwritev2,sendfile,eventfd2,eventfd,pipe,pipe2,dup,dup2,dup3,close", self, "worker", "c10", fmt.Sprint(c.Seed), fmt.Sprint(nscripts), canary)
 	cmd.Env = append(os.Environ(), "ZONEINFO=")
+	// (the worker's current directory is the canary's directory: a file made through a relative
+	// path would land there, where it is seen - not in the tree the checks live in)
+	cmd.Dir = filepath.Dir(canary)
 	errPath := filepath.Join(work, "worker-stderr.txt")
 	errFile, _ := os.Create(errPath)
 	cmd.Stderr = errFile
